@@ -82,10 +82,38 @@ def gen_history(rng, n_ops, damage):
     return ops
 
 
+def gen_prune_history(rng):
+    """retention timelines: several backups per bucket, incrementals on old and recent parents, every age class,
+    then prunes with and without a minimum age, then every surviving backup restored"""
+    dim = rng.choice([1, 2])
+    ops = ["cfg dim=%d metric=l2 cap=300 snap=%d rot=%d fsync=always crash=0 torn=0 wall=%d" % (
+        dim, rng.choice([0, 2, 3]), rng.choice([100, 300, 100000]), 1700000000 + rng.randrange(10 ** 6))]
+    nb = 0
+    for step in range(rng.randint(5, 11)):
+        for _ in range(rng.randint(1, 2)):
+            ops.append("insert id=%d v=%s m=%s" % (rng.randint(1, 5), persist.vbits(persist.rand_vec(rng, dim)), show_meta(persist.rand_meta(rng))))
+        if nb and rng.random() < 0.55:
+            ops.append("bk_incr parent=%d" % (nb - 1 if rng.random() < 0.5 else rng.randrange(nb)))
+        else:
+            ops.append("bk_full")
+        nb += 1
+        ops.append("tick secs=%d" % rng.choice([1, 60, 60, 1800, 7200, 7200, 40000, 86400, 90000, 200000, 345600, 700000, 2700000]))
+    for _ in range(rng.randint(1, 3)):
+        ops.append("bk_prune hourly=%d daily=%d weekly=%d monthly=%d minage=%d" % (
+            rng.choice([0, 1, 2, 24]), rng.choice([0, 1, 7]), rng.choice([0, 1, 4]), rng.choice([0, 1, 12]), rng.choice([0, 1, 1, 2, 5])))
+        if rng.random() < 0.5:
+            ops.append("tick secs=%d" % rng.choice([60, 7200, 90000]))
+    for k in range(nb):
+        ops.append("bk_restore b=%d clear=0 target=empty" % k)
+    return ops
+
+
 def gen(thorough, seed):
     rng = rng_for(seed, "C12/persist")
     n = 400 if thorough else 70
-    return [gen_history(rng, rng.choice([15, 30, 45]) if not thorough else rng.choice([20, 40, 70]), damage=(k % 2 == 1)) for k in range(n)]
+    cases = [gen_history(rng, rng.choice([15, 30, 45]) if not thorough else rng.choice([20, 40, 70]), damage=(k % 2 == 1)) for k in range(n)]
+    rngp = rng_for(seed, "C12/prune")
+    return cases + [gen_prune_history(rngp) for _ in range(200 if thorough else 40)]
 
 
 def run(tier, seed, replay):
@@ -94,7 +122,8 @@ def run(tier, seed, replay):
         "seeded random histories of writes, snapshots (manual/automatic), rotation, compaction and restarts under a virtual "
         "wall clock, with full and incremental backups (parent = latest or any earlier backup) at arbitrary quiescent points, "
         "clock ticks from 0 s to 8 days (same-second cases included), restores of every backup (into empty and non-empty "
-        "targets, with and without confirmation), point-in-time restores, retention pruning with random policies, and — in "
+        "targets, with and without confirmation), point-in-time restores, retention pruning with random policies (plus dedicated "
+        "retention timelines: several backups per bucket, incrementals on old and recent parents, minimum ages 0-5 days), and — in "
         "half of the histories — single-byte flips/truncations aimed at each structural field of an archive (count, name "
         "length, name, data length, data) or of the metadata JSON followed by a restore; every restored directory is started "
         "with the real strict recover and compared with the collection when the backup was taken",
